@@ -609,7 +609,7 @@ def roundtrip_unit(store, load, iset, title):
 
     def nreplay(inputs, ob):
         return False, 'spec-level lemma (no code involved)'
-    return Unit('C03/lemma:%s[%s]' % (title.split(':')[0], iset), ['C03'], symbolic, nreplay, {'contracts': {}},
+    return Unit('C03/lemma:%s[%s]' % (title.split(':')[0], iset), ['C03'], symbolic, nreplay, {'contracts': {}, 'oneshot': False},
                 meta={'inductive': True})
 
 
